@@ -24,7 +24,8 @@ OPQ = {"bits.utils.is_point", "bits.base58.is_base58check", "bits.base58.base58c
        SU + "p2wpkh_script_pubkey", SU + "p2wsh_script_pubkey"}
 
 
-def run(ctx):
+def check_dispatch(ctx, oid="C08.1"):
+    """Decision table of scriptpubkey over the address classes (shared with C16: recipient / change scripts)."""
     R = ctx.R
     fi = ctx.fn(SU + "scriptpubkey")
     ev = ctx.evaluator(opaque=OPQ)
@@ -37,7 +38,7 @@ def run(ctx):
     # class: public key
     ev.assumptions = {isp: True}
     kind, val = rules.outcome(ev.run(fi))
-    R.check("C08.1", "DECISION-TABLE", fi, "valid SEC1 key -> P2PK", kind == "return" and tm.veq(val, tm.app(SU + "p2pk_script_pubkey", [data], ty=tm.BYTES)),
+    R.check(oid, "DECISION-TABLE", fi, "valid SEC1 key -> P2PK", kind == "return" and tm.veq(val, tm.app(SU + "p2pk_script_pubkey", [data], ty=tm.BYTES)),
             "a valid public key maps to %s" % tm.show(val)[:120])
     # class: base58check, all version bytes
     ev.assumptions = {isp: False, isb: True}
@@ -55,10 +56,10 @@ def run(ctx):
         if not ok:
             wrong.append((v, kind, val))
     ev.bind = {}
-    R.check("C08.1", "DECISION-TABLE", fi, "Base58Check version byte table (257 classes incl. empty payload)", not wrong,
+    R.check(oid, "DECISION-TABLE", fi, "Base58Check version byte table (257 classes incl. empty payload)", not wrong,
             "version byte %s is mapped to %s %s" % (wrong[0][0].hex() or "(empty payload)", wrong[0][1], tm.show(wrong[0][2])[:120]) if wrong else "",
             example=("a checksum-valid Base58Check string with version %s" % (wrong[0][0].hex() or "none (empty payload)")) if wrong else None)
-    R.floor("C08.1", 257, 257, "base58_version_classes")
+    R.floor(oid, 257, 257, "base58_version_classes")
     # class: segwit, program lengths
     seg = tm.app("bits.utils.decode_segwit_addr", [data, True], ty=tm.TUPLE)
     wv, prog = T("proj", (seg, 1)), T("proj", (seg, 2))
@@ -71,16 +72,21 @@ def run(ctx):
         w1 = tm.app(SU + "p2wpkh_script_pubkey", [prog, wv], ty=tm.BYTES)
         w2 = tm.app(SU + "p2wsh_script_pubkey", [prog, wv], ty=tm.BYTES)
         ok = kind == "return" and (tm.veq(val, w1) or tm.veq(val, w2))
-        R.check("C08.1", "DECISION-TABLE", fi, "valid segwit address, program length %d -> OP_w push(program)" % L, ok,
+        R.check(oid, "DECISION-TABLE", fi, "valid segwit address, program length %d -> OP_w push(program)" % L, ok,
                 "a valid segwit address with a %d-byte program maps to %s %s" % (L, kind, tm.show(val)[:120]),
                 example="a valid version-1..16 address with a %d-byte program" % L)
         n += 1
     ev.bind = {}
     ev.assumptions = {isp: False, isb: False, iss: False, iss2: False}
     kind, val = rules.outcome(ev.run(fi))
-    R.check("C08.1", "DECISION-TABLE", fi, "none of key / Base58Check / segwit -> error", kind == "raise", "unclassifiable input maps to %s %s" % (kind, tm.show(val)[:100]))
+    R.check(oid, "DECISION-TABLE", fi, "none of key / Base58Check / segwit -> error", kind == "raise", "unclassifiable input maps to %s %s" % (kind, tm.show(val)[:100]))
     ev.assumptions = {}
     # the witness builders used by the dispatcher emit OP_w push(program) for every length (checked on the real builders)
+
+
+def run(ctx):
+    R = ctx.R
+    check_dispatch(ctx)
     c13.check_builders(ctx, "C08.3", only={"p2pk_script_pubkey", "p2pkh_script_pubkey", "p2sh_script_pubkey", "p2wpkh_script_pubkey", "p2wsh_script_pubkey"})
 
     # ---- encoder version table
@@ -110,3 +116,7 @@ def run(ctx):
     # ---- the segwit encoder / validity tables the witness addresses go through (shared with C06)
     c06.check_encoder(ctx, "C08.5")
     c06.check_valid_segwit(ctx, "C08.5")
+    # invalid segwit addresses must be refused before they become scripts: the decoder's accept set (shared with C06)
+    c06.check_parse_and_validate(ctx, "C08.5")
+    c06.check_decode_segwit(ctx, "C08.5")
+    c06.check_bech32_decode(ctx, "C08.5")
